@@ -259,9 +259,13 @@ func c09strings(w *report.W) {
 						continue
 					}
 					if harness != "" {
-						// the YAML emitter of the harness could not express the string (it is yaml.v3's own limit): the input leg is skipped
-						w.Count("input_render_skipped", 1)
-						continue
+						if leg != "json" && (strings.HasPrefix(harness, "render:") || strings.Contains(harness, "unreadable by yaml.v3") || strings.Contains(harness, "does not denote")) {
+							// the YAML emitter of the harness could not express the string as INPUT (yaml.v3's own limit): this input leg is skipped
+							w.Count("input_render_skipped", 1)
+							continue
+						}
+						w.HarnessError("%s", harness)
+						return
 					}
 					w.P.Evaluations++
 					w.P.Nontrivial++
